@@ -21,4 +21,17 @@ PROPS = {
         "rule": "builder histories with 30-50 % (2/3 of the cases) or ~3 % (1/3) failing calls: add_parent with absent parent / absent child / both (ids < 10^7 and >= 10^7), annotate_* with absent term and existing or fresh record id, interleaved with succeeding calls in shuffled order; compared: every call's Ok/Err, the full read-API dump incl. the resolving-iterator walk under catch_unwind, referential-closure oracle, and equality with the ontology built from the successful calls alone (`same 0 1`); non-trivial = at least one failing call",
         "assumptions": ["C15_filter_errors is proved generically and instantiated for add_parent histories; for annotate_* histories the per-call theorem C15_annotate_error_no_effect (under the builder invariant) is what is proved"],
     },
+    "C03": {
+        "rule": "ontology generator of C01/C02 (Builder and binary v1-v3 paths); the three kinds get independent record sets so totals and per-term counts differ between kinds; kinds with zero records, records without terms, terms linked to all records (ic = -0.0); compared: f32 bit patterns of the three ic values per term against the model's Float32 evaluation of the same formula (<= 4 ulp), plus harness oracle on the implementation: value = -ln(n/N) from the observed counts, finite, >= 0, get_kind == accessor, non-decreasing from ancestor to descendant among annotated terms; non-trivial = at least one inherited link",
+        "partial": "theorems are over the reals (exact formula, definedness, sign, monotonicity, error kind); f32 rounding and the accuracy of logf are outside the model and covered by the 4-ulp comparison only; the error branch (count > 65535) is proved in the model but exercised by correspondence only in the thorough tier",
+        "assumptions": ["f32 division and ln are monotone/accurate enough that the real-number theorems transfer: checked bit-exactly on the implementation by the harness oracle, not proved"],
+    },
+    "C10": {
+        "rule": "per ontology (sparse and dense id blocks, borders 0, 1, 9_999_999): sweep of Ontology::hpo over ALL ids 0..10_001_000 plus a stride over the rest of u32 and u32::MAX, iteration/len agreement, point lookups at ids, id+-1, id+10^7 (table wrap), u32 borders; gene/omim/orpha lookups by present and absent ids; gene_by_name and disease substring search for names, substrings of names, empty, absent and multi-byte queries; every case non-trivial",
+        "assumptions": ["C10_arena2_* prove that the code's two-vector layout (placeholder slot 0, id table of M entries) refines the association-list arena the driver executes"],
+    },
+    "C19": {
+        "rule": "ontologies with HP:1 and HP:118 and extra children of both (0..n top-level branches), terms below several categories and below both a modifier and a phenotype branch, 1/8 of the cases missing HP:1 and 1/8 missing HP:118 (build must fail with an error); compared: categories()/modifier() groups, per-term is_modifier and categories(), build result; independent defaults oracle; non-trivial = both roots present and at least two top-level branches",
+        "assumptions": ["'descends from' is membership in the ancestor group, which C01 proves to be the transitive closure"],
+    },
 }
